@@ -41,6 +41,9 @@ SCENARIOS = {
     "S-REQ-2diff": [("r0", "CON", "S1"), ("r1", "CON", "S2")],
     "S-REQ-3": [("r0", "CON", "S1"), ("r1", "NON", "S1"), ("r2", "CON", "S2")],
     "S-REQ-half": [("r0", "CON", "S1"), None, ("r1", "NON", "S1")],   # None: r1 is a later app step
+    # forced collision: before r1 is issued the token counter is moved to where its next value is r0's token followed by a
+    # zero byte (counter values 256 apart must still give different tokens)
+    "S-REQ-tokenwrap": [("r0", "NON", "S1"), "wrap", ("r1", "NON", "S1")],
 }
 
 
@@ -63,7 +66,7 @@ class MatchScenario(NetScenario):
 
     def __init__(self, name, K, menu=None):
         self.name = name
-        self.params = {"requests": SCENARIOS[name]}
+        self.params = {"requests": [r if r != "wrap" else "move-token-counter" for r in SCENARIOS[name]]}
         self.K = K
         if menu is not None:
             self.menu = menu
@@ -80,14 +83,23 @@ class MatchScenario(NetScenario):
         st.shut = False
         w.on_emit.append(lambda dg: self.on_wire(st, dg))
         groups = [[]]
+        wrap_before = set()
         for r in SCENARIOS[self.name]:
-            if r is None:
+            if r is None or r == "wrap":
+                if r == "wrap":
+                    wrap_before.add(len(groups))
                 groups.append([])
             else:
                 groups[-1].append(Req(*r))
-        for g in groups:
+        for gi, g in enumerate(groups):
             st.reqs += g
+            if gi in wrap_before:
+                st.script.append(("move token counter", lambda st: self.move_counter(st)))
             st.script.append(("issue " + "+".join(r.name for r in g), lambda st, g=g: self.issue_group(st, g)))
+
+    def move_counter(self, st):
+        t = st.reqs[0].token or b"\x01"
+        st.cli.tman._token = (int.from_bytes(t, "big") << 8) - 1
 
     def issue_group(self, st, g):
         for r in g:
@@ -95,6 +107,11 @@ class MatchScenario(NetScenario):
         st.world.loop.settle()
         for r in g:
             r.token = r.msg.token   # the token is visible to the application on its message object
+        for r in g:
+            for o in st.reqs:
+                if o is not r and o.obj is not None and o.token == r.token and o.srv == r.srv and self.outstanding(o) and self.outstanding(r):
+                    st.violations.append(Violation("token-reuse", "pairwise different tokens among outstanding requests to one endpoint",
+                                                   [o.name, r.name, r.token.hex()], "tokenmanager.py:next_token", {}, key="reuse"))
         self.sendfault_check(st)
 
     def sendfault_check(self, st):
